@@ -49,7 +49,16 @@ func (*StringCastingMangler) Unmangle(sf reflect.StructField, vs []FieldValueTup
 		castTo = sf.Type.Elem()
 	}
 
-	return parse.String(str, castTo)
+	castVal, parseErr := parse.String(str, castTo)
+	if parseErr != nil {
+		return castVal, parseErr
+	}
+	// parse.String returns values of the builtin types (e.g. *uint8 for a field
+	// of a user-defined `type Level uint8`), convert to the field's own type.
+	if castVal.Type() != sf.Type && castVal.Type().ConvertibleTo(sf.Type) {
+		castVal = castVal.Convert(sf.Type)
+	}
+	return castVal, nil
 }
 
 // ShouldRecurse always returns true in order to walk nested structs.
